@@ -405,7 +405,7 @@ def rand_history(rng, cfg, max_ops=40, noise=False):
             else:
                 hist.append(["recv", s])
             prev.append(s)
-        elif r < p_recv + 0.06:
+        elif p_recv <= r < p_recv + 0.06:
             hist.append(["clear", rng.random() < 0.4])
             prev = []
         else:
